@@ -27,7 +27,12 @@ RULE = (
     "exactly as it was. Oracle: the arrays "
     "the generator stored (before np.save), squeezed, with documented defaults; SHA-256 of every "
     "pre-existing file before/after load_model()+close(); set of created files. Non-trivial: the "
-    "spec differs from 'all files present, KS names, 1-D vectors' in >= 1 switch.")
+    "spec differs from 'all files present, KS names, 1-D vectors' in >= 1 switch."
+    ' Later additions: directory names with glob characters, dataset reached through a symlinked '
+    'directory, raw data at ../<name>, symlinked files, a stored inverse that is only approximate'
+    'ly the inverse and older than the matrix file, integer whitening matrices, 2**20+7 spikes wi'
+    'th one inversion on a power-of-two boundary, a rejected load leaves the directory untouched,'
+    ' an in-place edit of spike_clusters leaves the other arrays equal to their files.')
 ASSUMPTIONS = ['datasets with >=2 spikes/templates/channels/samples (squeeze degeneracy is a '
                'documented precondition)', 'mtscomp as codec']
 
